@@ -199,6 +199,35 @@ pub fn gen(ctx: &mut Ctx) {
             }
         }
     }
+    if si == 0 {
+        // the bytes between the signature header and the main header, for every padding length 0..7: zeros, 0xff, the first bytes
+        // of a header intro (8e ad e8 01 …: a reader that "finds" the main header early must not skip less), and NO padding at all
+        // (the main header directly behind the store: an error when padding is due). Deterministic, since seed C01-6 (tolerant
+        // padding) was once reported only by an escalation seed.
+        let mut rng = Rng::new(0xC0106);
+        for slack in 0..8usize {
+            let mut sig = GHeader::new();
+            sig.push(1000, 7, &TData::Bytes(vec![0x42; 8 + slack]));
+            let hdr = gen_header_wf(&mut rng);
+            let lead = gen_lead(&mut rng, false);
+            let pad = (8 - (8 + slack) % 8) % 8;
+            for kind in 0..4 {
+                let filler: Vec<u8> = match kind {
+                    0 => vec![0; pad],
+                    1 => vec![0xff; pad],
+                    2 => [0x8e, 0xad, 0xe8, 0x01, 0, 0, 0, 0][..pad].to_vec(),
+                    _ => vec![],
+                };
+                let mut b = lead.clone();
+                b.extend(sig.bytes());
+                b.extend(filler);
+                b.extend(hdr.bytes());
+                b.extend_from_slice(&[1, 2, 3, 4, 5]);
+                ctx.req(&format!("pkgrt {}", hx(&b)));
+                ctx.req(&format!("metart {}", hx(&b)));
+            }
+        }
+    }
     // every entry point / source kind on packages larger than the default BufReader capacity, some truncated / damaged
     let nb = ctx.q(120u64, 2_000) / sn;
     let _ = std::fs::create_dir_all("work/c01-blobs");
